@@ -23,7 +23,7 @@ RULE = ('documents in the article and book classes built from an event grammar: 
         'sequences over a small alphabet up to a length bound, all list shapes up to a size bound, a stream of documents LaTeX rejects but '
         'plasTeX accepts (judged against the Model only), a stream of lists nested 5-6 deep, and the exhaustive representation check of '
         'every value 0..4999 (Alph/alph -56..56); format strings handed to Context.newcounter and expanded by the real TheCounter.invoke: '
-        'all strings of up to 3 (thorough: 5) tokens over {$ { } . blank zz alph thesection}, every ASCII code point inside ${..} and after '
+        'all strings of up to 3 (thorough: 4) tokens over {$ { } . blank zz alph thesection}, every ASCII code point inside ${..} and after '
         '$name, random token strings.  Non-trivial = at least four events (a representation in its range; a format containing $).')
 TRUSTED = ['modelled, not verified: Python str(int) (the decimal conversion in the Model is proved to read back to the value), TeX argument '
            'parsing of the numbering macros (C05), string.ascii_letters; the regular-expression engine itself: the two passes of '
@@ -672,8 +672,8 @@ FMT_SMALL = ['$', '{', '}', '.', ' ', 'zz', 'alph', 'thesection']
 
 def format_cases(rng, quick, boost):
     out = []
-    # exhaustive: every string of up to 3 (5) tokens of the small alphabet
-    for n in range(0, (4 if quick else 6)):
+    # exhaustive: every string of up to 3 (4) tokens of the small alphabet
+    for n in range(0, (4 if quick else 5)):
         for t in itertools.product(FMT_SMALL, repeat=n):
             out.append(('format-exhaustive', dict(kind='fmt', fmt=''.join(t), trim=0)))
     # the character classes \\w and \\s, every ASCII code point (TeX-special characters excepted: they do not survive
